@@ -236,3 +236,31 @@ class PathGen:
         if r.random() < 0.3:
             mods.insert(r.randint(0, len(mods)), r.choice(["length", "dtype"]))
         return doc, PathT(parts, mods)
+
+    def wide_doc_and_path(self):
+        """A container with 9-14 children and a path selecting a FEW of them (positions on both sides of 8), possibly descending further:
+        the selected nodes come in document order whatever their number and positions."""
+        r, g = self.r, self.g
+        n = r.randint(9, 14)
+        kids = [g.r.choice([g.scalar(), {"id": i, "tag": g.scalar()}, [i, g.scalar()]]) if r.random() < 0.6 else {"id": i, "tag": i} for i in range(n)]
+        as_list = r.random() < 0.6
+        keys = [f"k{i}" for i in range(n)]
+        top = kids if as_list else dict(zip(keys, kids))
+        pos = sorted(r.sample(range(n), r.randint(2, 4)))
+        if not any(p >= 8 for p in pos):
+            pos[-1] = r.randint(8, n - 1)
+        if not any(p < 8 and (p % 8) > (max(pos) % 8) for p in pos):
+            pos[0] = min(7, (max(pos) % 8) + 1)
+        pos = sorted(set(pos))
+        if as_list:
+            first = ListT(index=cnd(Leaf("Index", "in_", [list(pos)]))) if r.random() < 0.7 else MolT(index=cnd(Leaf("Index", "in_", [list(pos)])))
+        else:
+            first = MapT(key=cnd(Leaf("Key", "in_", [[keys[p] for p in pos]]))) if r.random() < 0.7 else MolT(key=cnd(Leaf("Key", "in_", [[keys[p] for p in pos]])))
+        parts = [first]
+        if r.random() < 0.4:
+            parts.append(r.choice([Prim("id"), Prim(0), MapT(), Prim("tag")]))
+        doc = top
+        if r.random() < 0.4:
+            doc = {"rows": top, "n": n}
+            parts = [Prim("rows")] + parts
+        return doc, PathT(parts, [])
